@@ -534,8 +534,8 @@ func (in *Interp) equal(t types.Type, a, b Value) *Term {
 		return c.Bool(x.H == b.(ChanV).H)
 	case *FuncV:
 		y := b.(*FuncV)
-		xn := x == nil || (x.Fn == nil && x.B == nil)
-		yn := y == nil || (y.Fn == nil && y.B == nil)
+		xn := x == nil || (x.Fn == nil && x.B == nil && x.N == nil)
+		yn := y == nil || (y.Fn == nil && y.B == nil && y.N == nil)
 		if xn || yn {
 			return c.Bool(xn && yn)
 		}
